@@ -42,7 +42,7 @@ fn check_matcher<M: Matcher<SupportLang>>(m: &M, root: &N, desc: &str, class: &s
     let brute: Vec<(Key, N)> = root.dfs().filter_map(|n| m.match_node(n.clone()).map(|_| (key(&n), n))).collect();
     let found: Vec<Key> = root.find_all(m).map(|nm| key(nm.get_node())).collect();
     let brute_keys: Vec<Key> = brute.iter().map(|x| x.0).collect();
-    let brute_set: std::collections::HashSet<Key> = brute_keys.iter().cloned().collect();
+    let brute_ids: std::collections::HashSet<usize> = brute.iter().map(|(_, n)| n.node_id()).collect();
     let mut out = vec![];
     if found != brute_keys {
       let kind = if found.len() < brute_keys.len() { "drops" } else if found.len() > brute_keys.len() { "invents" } else { "order-or-identity" };
@@ -52,9 +52,10 @@ fn check_matcher<M: Matcher<SupportLang>>(m: &M, root: &N, desc: &str, class: &s
     let outer: Vec<Key> = brute
       .iter()
       .filter(|(_, n)| {
+        // identity by node id: an ERROR node can wrap another ERROR node of the same range and kind
         let mut cur = n.parent();
         while let Some(p) = cur {
-          if brute_set.contains(&key(&p)) {
+          if brute_ids.contains(&p.node_id()) {
             return false;
           }
           cur = p.parent();
@@ -65,6 +66,9 @@ fn check_matcher<M: Matcher<SupportLang>>(m: &M, root: &N, desc: &str, class: &s
       .collect();
     let got: Vec<Key> = Visitor::new(m).reentrant(false).visit(root.clone()).map(|nm| key(nm.get_node())).collect();
     if got != outer {
+      if std::env::var("VMON_TRACE").is_ok() {
+        eprintln!("brute {:?}\nouter {:?}\ngot {:?}", brute_keys, outer, got);
+      }
       out.push((format!("C01/non-reentrant/{class}"), format!("{desc}: overlap-free traversal reports {} nodes, outermost matches are {}", got.len(), outer.len())));
     }
     (brute_keys.len(), m.potential_kinds().is_some(), out)
